@@ -45,12 +45,19 @@ DEFAULT = (0, 2, 1, 1, 0, 0, 0, 0)
 
 def must_refuse(method, eio, transport, sidk, hdrs, jp, conf):
     """True when the statement requires 400/405."""
-    if method == 'OPTIONS':
-        return None
-    if method not in ('GET', 'POST'):
+    if method not in ('GET', 'POST', 'OPTIONS'):
         return True
     allowed = ['polling', 'websocket'] if conf is None else [conf]
     tr = transport or 'polling'
+    if method == 'OPTIONS':
+        # the addressing rules that do not depend on a session apply to
+        # OPTIONS as to any other request; what an OPTIONS naming a session
+        # must be answered is left open (it has no effect either way)
+        if tr not in allowed or jp in ('abc', '1x'):
+            return True
+        if sidk == 'absent' and eio in (None, '3', '5'):
+            return True
+        return None
     if tr not in allowed:
         return True
     if jp in ('abc', '1x'):
